@@ -389,8 +389,8 @@ def r5_breadth_first(ctx: Context) -> None:
 
 
 def run(ctx: Context) -> None:
-    r1_worklist(ctx)
-    r2_topological_sort(ctx)
-    r3_longest_path(ctx)
-    r4_depth_and_dependency(ctx)
-    r5_breadth_first(ctx)
+    ctx.isolate(r1_worklist)
+    ctx.isolate(r2_topological_sort)
+    ctx.isolate(r3_longest_path)
+    ctx.isolate(r4_depth_and_dependency)
+    ctx.isolate(r5_breadth_first)
